@@ -834,6 +834,8 @@ impl<'a> Lexer<'a> {
                         next_token = Some(t);
                         break;
                     }
+                    // an error is final, later characters must not be lexed over it
+                    None if self.result.is_err() => return None,
                     None => (),
                 },
                 None => {
